@@ -211,6 +211,7 @@ type didEnv struct {
 	Keys   []tmsecp.PrivKey // k1,k2,k3
 	DIDs   []string         // d1,d2
 	Prefix [2]string        // dp (43-character id) and dp+"m": a valid DID that is a byte-prefix of another valid DID
+	Lead   string           // "d"+dp's identifier: dp's identifier with one more LEADING letter (a letter of the method prefix itself)
 }
 
 func newDidEnv() *didEnv {
@@ -222,6 +223,7 @@ func newDidEnv() *didEnv {
 		e.DIDs = append(e.DIDs, didtypes.NewDID(e.Keys[i].PubKey().Bytes()))
 	}
 	e.Prefix = [2]string{"did:panacea:" + strings.Repeat("7", 43), "did:panacea:" + strings.Repeat("7", 43) + "m"}
+	e.Lead = "did:panacea:d" + strings.Repeat("7", 43)
 	return e
 }
 
@@ -311,6 +313,10 @@ func bulkDIDs(e *didEnv, n int) map[string]*didtypes.DIDDocumentWithSeq {
 		doc := e.doc("D1", did)
 		out[did] = &didtypes.DIDDocumentWithSeq{Document: doc, Sequence: uint64(i % 3)}
 	}
+	// identifiers at the very top of the base58 alphabet (they sort after every other DID and after "did:panacea:z")
+	for _, did := range []string{"did:panacea:" + strings.Repeat("z", 32), "did:panacea:z" + strings.Repeat("y", 43)} {
+		out[did] = &didtypes.DIDDocumentWithSeq{Document: e.doc("D1", did), Sequence: 1}
+	}
 	return out
 }
 
@@ -339,6 +345,8 @@ func (e *didEnv) short(did string) string {
 		return "dp"
 	case e.Prefix[1]:
 		return "dp+m"
+	case e.Lead:
+		return "d+dp"
 	}
 	return "d?"
 }
@@ -512,6 +520,10 @@ func didOps(e *didEnv, v didVariant) []explore.Op {
 			// the did field is a byte-prefix of the document id (and the other way round): a document about ANOTHER DID
 			create(dp, dpm, "D2", 2, 0, R1), // an observed create of dp+m re-submitted under dp
 			create(dpm, dp, "D1", 1, 0, R2),
+			// ... and the did field / document id differ by one leading letter of the identifier
+			create(e.Lead, e.Lead, "D2", 2, 0, R2),
+			create(dp, e.Lead, "D2", 2, 0, R1), // the observed create of d+dp re-submitted under dp
+			create(e.Lead, dp, "D1", 1, 0, R2),
 			explore.Op{Name: "Update(dp,D1(dp+m) with dp's key,proof by dp#key1,k1,via=R2)", Tx: func(w *world.World, m any) *world.TxSpec {
 				doc := e.doc("D1", dpm)
 				doc.VerificationMethods[0].PublicKeyBase58 = e.vm(dp, 1, es256k).PublicKeyBase58
@@ -722,7 +734,7 @@ func didSystem(v didVariant) *explore.System {
 				fill := bulkDIDs(env, v.Bulk)
 				if v.Tombs > 0 {
 					for i, did := range sortedKeys(fill) {
-						if i%v.Tombs == v.Tombs-1 {
+						if i%v.Tombs == v.Tombs-1 || i == len(fill)-1 { // (the last one, a 'z…' identifier, is always a tombstone)
 							fill[did] = &didtypes.DIDDocumentWithSeq{Document: &didtypes.DIDDocument{}, Sequence: uint64(2 + i%3)}
 						}
 					}
